@@ -165,6 +165,24 @@ def engine (fn : String) (j : Json) : Option (Except String Json) :=
                                        ("full", .arr (full.map respJson).toArray)])
         prev := cmds; hist := res; first := false; idx := idx + 1
       pure (.arr outs)
+  | "queue" => some do
+      -- the actions `play` offers to the router, given the events of the previous play
+      let evs ← (← list (← field j "events")).mapM getEvent
+      let a ← getAction (← field j "action")
+      pure (.arr ((buildQueue (callbacksOf evs) a).map actionJson).toArray)
+  | "first_delay" => some do
+      let evs ← (← list (← field j "events")).mapM getEvent
+      match j.getObjVal? "name" with
+      | .ok n => do
+          let n ← str n
+          pure (ofRat (firstDelay (evs.filter (fun e => e.name == n))))
+      | .error _ => pure (ofRat (firstDelay evs))
+  | "elapse_of" => some do
+      let acts ← (← list (← field j "actions")).mapM getAction
+      pure (ofRats (acts.map elapseOf))
+  | "signature" => some do
+      let a ← getAction (← field j "action")
+      pure (.str (signature a.name a.method))
   | _ => none
 
 end Simaple.DrvEngine
